@@ -159,3 +159,29 @@ Proof.
     exfalso. cbn in Hb. intuition discriminate.
   - vm_compute. reflexivity.
 Qed.
+
+(* ---------------------------------------------------------------- syntactic tie to the Go source
+   Generated/RenderExpr.v is re-translated from the Go AST of the current source tree on every run
+   (harness/rendergen); Render/GenEqRender.v and Render/GenEqMC.v prove the generated definitions equal to the model the
+   theorems above are about, for all arguments over an arbitrary Ops (all of them: Props/TRANSLR.v).
+   Each theorem below breaks when the Go function it is named after changes what it computes. *)
+From Coq Require Import ZArith List.
+Import ListNotations.
+From Sdfx Require Num.Ops Geo.Vec Geo.Box Render.Interp Render.Octree Render.Sample Generated.RenderExpr Render.GenEqRender Render.GenEqMC.
+Import Num.Ops Geo.Vec.
+
+Theorem C05_TRANSL_mcToTriangles : forall (O : Ops) (p0 p1 p2 p3 p4 p5 p6 p7 : V3 O) (v0 v1 v2 v3 v4 v5 v6 v7 x : T O),
+    RenderExpr.rg_render_mcToTriangles [p0; p1; p2; p3; p4; p5; p6; p7] [v0; v1; v2; v3; v4; v5; v6; v7] x =
+    Interp.mc_to_triangles (Octree.sel8 p0 p1 p2 p3 p4 p5 p6 p7) (Octree.sel8 v0 v1 v2 v3 v4 v5 v6 v7) x.
+Proof. exact (@GenEqMC.mcToTriangles_eq). Qed.
+Print Assumptions C05_TRANSL_mcToTriangles.
+
+Theorem C05_TRANSL_mcInterpolate : forall (O : Ops) (p1 p2 : V3 O) (v1 v2 x : T O),
+    RenderExpr.rg_render_mcInterpolate p1 p2 v1 v2 x = Interp.mc_interpolate p1 p2 v1 v2 x.
+Proof. exact (@GenEqRender.mcInterpolate_eq). Qed.
+Print Assumptions C05_TRANSL_mcInterpolate.
+
+Theorem C05_TRANSL_Triangle3_Degenerate : forall (O : Ops) (t : V3 O * V3 O * V3 O) (tol : T O),
+    RenderExpr.rg_sdf_Triangle3_Degenerate t tol = Interp.tri3_degenerate t tol.
+Proof. exact (@GenEqRender.Triangle3_Degenerate_eq). Qed.
+Print Assumptions C05_TRANSL_Triangle3_Degenerate.
